@@ -115,28 +115,28 @@ Lemma tr_lapi s pend wpend o : LInvG s pend wpend -> tr_ok (snd (lapi s o)).
 Proof.
   intros Hinv. unfold tr_ok.
   destruct o as [k hascb|i cb t r|i|i r|i hascb|i|i|i|i|i|x| |d| | | |m| ]; cbn [lapi].
-  - destruct k; cbn [snd]; constructor.
+  - destruct k; cbn [snd]; repeat constructor.
   - destruct (usable s i && kind_is s i KTimer); [destruct (l_timer_start s i cb t r)|];
       cbn [snd]; repeat constructor.
   - destruct (usable s i && kind_is s i KTimer); [destruct (l_timer_again s i)|];
       cbn [snd]; repeat constructor.
-  - destruct (usable s i && kind_is s i KTimer); cbn [snd]; constructor.
+  - destruct (usable s i && kind_is s i KTimer); cbn [snd]; repeat constructor.
   - destruct (usable s i && is_watcher s i && negb (h_closing (hget s i)));
       [destruct (watcher_start s i hascb)|]; cbn [snd]; repeat constructor.
   - destruct (usable s i); [destruct (kind_is s i KTimer); [|destruct (is_watcher s i)]|];
       cbn [snd]; repeat constructor.
-  - destruct (usable s i); cbn [snd]; constructor.
-  - destruct (usable s i); cbn [snd]; constructor.
-  - destruct (usable s i && negb (h_closing (hget s i))); cbn [snd]; constructor.
+  - destruct (usable s i); cbn [snd]; repeat constructor.
+  - destruct (usable s i); cbn [snd]; repeat constructor.
+  - destruct (usable s i && negb (h_closing (hget s i))); cbn [snd]; repeat constructor.
   - destruct (usable s i && kind_is s i KAsync); cbn [snd]; repeat constructor.
   - cbn [snd]; repeat constructor.
-  - cbn [snd]; constructor.
-  - cbn [snd]; constructor.
+  - cbn [snd]; repeat constructor.
+  - cbn [snd]; repeat constructor.
   - cbn [snd]; repeat constructor.
   - cbn [snd]. constructor; [|constructor]. exact (obs_ok s pend wpend Hinv).
   - cbn [snd]; repeat constructor.
-  - cbn [snd]; constructor.
-  - cbn [snd]; constructor.
+  - cbn [snd]; repeat constructor.
+  - cbn [snd]; repeat constructor.
 Qed.
 
 Lemma tr_lapis os : forall s pend wpend, LInvG s pend wpend -> tr_ok (snd (lapis s os)).
@@ -472,7 +472,7 @@ Theorem alive_inside_close_batch_refuted :
     snd (lrun (linit 0 false) kf1_script kf1_beh) = tr1 ++ VAlive false :: VObs n r fl :: tr2 /\
     exists x, In x fl /\ snd (fst x) = true /\ snd x = false.
 Proof.
-  exists [VRunStart 2; VPoll 0 false true false false; VCb 6 1 0; VAlive false],
+  exists [VRunStart 2 true; VPoll 0 false true false false; VCb 6 1 0; VAlive false],
          [VCb 6 0 0; VAlive false; VRun false], 0, 0,
          [(false, true, true, false); (false, false, true, true)].
   split; [vm_compute; reflexivity|].
@@ -556,7 +556,7 @@ Qed.
 Theorem run_toplevel t0 m pre post beh mode :
   let s := fst (lrun (linit t0 m) pre beh) in
   snd (lrun (linit t0 m) (pre ++ LRun mode :: post) beh) =
-    snd (lrun (linit t0 m) pre beh) ++ VRunStart mode :: snd (uv_run run_fuel s beh mode) ++
+    snd (lrun (linit t0 m) pre beh) ++ VRunStart mode (loop_alive s) :: snd (uv_run run_fuel s beh mode) ++
     snd (lrun (fst (uv_run run_fuel s beh mode)) post beh).
 Proof.
   cbv zeta. rewrite lrun_app. destruct (lrun (linit t0 m) pre beh) as [s1 e1]. cbn [fst snd lrun].
@@ -574,7 +574,7 @@ Theorem run_default_stale_result_refuted :
             nreq (fst (lrun (linit 0 false) os beh)) = 0 /\
             closing (fst (lrun (linit 0 false) os beh)) = [].
 Proof.
-  cbv zeta. exists [VRet 0; VRunStart 0; VCb 0 0 0; VAlive false].
+  cbv zeta. exists [VRet 0; VRunStart 0 true; VCb 0 0 0; VAlive false; VStopReq].
   vm_compute. repeat split; reflexivity.
 Qed.
 
